@@ -66,5 +66,13 @@ PROPS = {
                 ],
                 assumptions=['patterns are non-empty and contain no NUL (as in the statement)',
                              'the per-character condition char_ok is established for the real escape_one_char by COMPLETE enumeration of all 1,112,063 scalar values (exhaustive evaluation, not deduction); the theorem that lifts it to every pattern and every position is proved by Verus for an arbitrary escaper satisfying char_ok']),
+    'C18': dict(units=[], level='model_checking', extras=['c18_native', 'c18_kani'], witness=None,
+                backend='Kani 0.68.0 / CBMC 6.11 (thorough tier) + exhaustive native enumeration through a pipe (every run)',
+                trusted_base=['rustc, Kani 0.68.0, CBMC 6.11',
+                              'the stubs of nix::unistd::read / write in the Kani harnesses transfer exactly the bytes (short reads / writes and the unchecked return value of read are outside the claim)',
+                              'libc::input_event as the layout oracle (size 24, offsets 16/18/20) on x86-64, native endianness',
+                              'the native probe uses a real pipe: what the kernel delivers on a pipe is what was written'],
+                assumptions=['no deductive verifier in this sandbox reaches send (closure capturing &mut, not a retain) or next (nix read, FromPrimitive derive): no Verus claim is made; Kani is the bounded model checker of the same tool family',
+                             'batches of arbitrary length are covered only by fixed lengths (0, 1, 2) in Kani and by random batches natively: bounded, never counted as proved; the one-record layout is complete over all key codes']),
     'C07': dict(units=['mapper'], level='proof', trusted_base=TB_MAPPER, assumptions=AS_MAPPER, witness='mapper', rests_on=['C19']),
 }
